@@ -19,11 +19,6 @@ def vertexBytes (dim : Nat) (m : Meta) : Nat := 16 + 4 * dim + mdBytes m
 def mergeMd (new old : Meta) : Meta :=
   new ++ old.filter fun kv => !(new.any fun nk => nk.1 == kv.1)
 
-/-- `Metadata.Validate`: what the snapshot format's length fields can hold (entry count and value
-length in 16 bits, key length in 8) -/
-def mdFits (m : Meta) : Bool :=
-  decide (m.length ≤ 65535) && m.all fun kv => decide (kv.1.utf8ByteSize ≤ 255) && decide (kv.2.utf8ByteSize ≤ 65535)
-
 inductive Outcome where
   | ok | exists | notFound | mdTooLarge
 deriving DecidableEq, Repr
